@@ -66,7 +66,7 @@ def tnum(rng, v):
 
 def tcat(rng, v, levels):
     if v == "K":
-        return rng.choice([(f"hashed(K, levels={k})", "hashed_mixed") for k in (5, 97, 1000)])
+        return rng.choice([(f"hashed(K, levels={k})", "hashed_mixed") for k in (3, 5, 11)])
     opts = [
         (v, "bare"), (f"C({v})", "C"), (f"C({v}, contr.sum)", "Csum"), (f"C({v}, contr.helmert)", "Chelmert"), (f"C({v}, contr.diff)", "Cdiff"),
         (f"C({v}, contr.poly)", "Cpoly"), (f"C({v}, contr.SAS)", "CSAS"), (f"hashed({v}, levels=5)", "hashed"),
@@ -142,8 +142,10 @@ def gen_case(rng: random.Random, tier: str) -> dict:
             f = f"{enc[rng.choice(vars_)]} ~ {f}"
     follow = []
     for _ in range(rng.randint(4, 6)):
-        kind = rng.choice(["same", "subset", "dup", "perm", "single", "lost_levels", "pickle", "pickle", "deepcopy", "via_function", "via_matrix", "recat", "recat", "part_alone", "part_alone"])
-        if kind == "same":
+        kind = rng.choice(["same", "subset", "dup", "perm", "single", "lost_levels", "pickle", "pickle", "deepcopy", "via_function", "via_matrix", "recat", "recat", "part_alone", "part_alone", "empty"])
+        if kind == "empty":  # an empty selection of rows is a selection too: zero rows, the recorded columns
+            rows = []
+        elif kind == "same":
             rows = list(range(n))
         elif kind == "dup":
             rows = [rng.randrange(n) for _ in range(rng.randint(1, 2 * n))]
